@@ -51,8 +51,10 @@ DROPPED = [
     "c16_derive: the Translator structs (`struct ToDefinite`, `AtIndex`, `IndexChoser`, `Derivator`) and their `impl Translator<..>` blocks are local items of the functions; they are hoisted to "
     "module level (R16: a local item is a module item with restricted scope) and deleted from the function text; `fn pk` is verbatim; `translate_hash_clone!(..)` (the four hash methods, "
     "identity on hashes) is dropped with the hash methods of the stub trait Translator: hashes are part of the skeleton",
-    "c16_derive: trait Translator is a stub with `spec fn spec_pk(&self, pk)` (the key map as a function of the translator's state and the key) and the frame `*final(self) == *old(self)`; "
-    "the four translators are checked against it",
+    "c16_derive: trait Translator is a stub with `spec fn spec_pk(&self, pk)` (the key map as a function of the translator's state and the key), an invariant `inv(&self)` and the frame "
+    "'a call keeps the invariant and does not change the key map'; the four translators are checked against it.  Derivator's invariant is generated from its field types (a memo table keyed by the "
+    "key itself stores that key's public key; a table keyed by a key source (fingerprint, path) has no invariant: a claimed origin does not determine a key); "
+    "`*m.entry(k).or_insert_with(f)` -> `btree_entry_or_insert_with_copied(&mut m, k, f)` (R14, std definition of the idiom; BTreeMap = uninterpreted Map view)",
     "c16_derive: closures get a parameter type and a ghost `requires` / `ensures` (R10): `|key| key.has_wildcard()`, `|e| e.expect_translator_err(..)`",
     "c16_derive: into_single_descriptors: the FnMut closure given to for_any_key (captures `&mut descriptors` and `self`) is lambda-lifted verbatim to `into_single_descriptors__key(this, descriptors, key)` "
     "(R16, `self` -> `this`); the call `self.for_any_key(CLOSURE)` becomes `Self::into_single_descriptors__any_key(&self, &mut descriptors)`, /verif text: the loop that for_any_key is for a stateful "
@@ -134,13 +136,16 @@ spec fn kind_kept<P: MiniscriptKey, Q: MiniscriptKey>(p: P, q: Q) -> bool {
     &&& (q.kind_num_der_paths() == p.kind_num_der_paths() || q.kind_num_der_paths() <= 1)
 }
 
-// ---- Translator: the key map is a function of the translator's state and the key; a call does not change the state -------
+// ---- Translator: the key map is a function of the translator's state and the key.  A call may change the state (a memo table) but
+// ---- keeps the translator's invariant and does NOT change the key map --------------------------------------------------------
 trait Translator<P: MiniscriptKey>: Sized {
     type TargetPk: MiniscriptKey;
     type Error;
+    spec fn inv(&self) -> bool;
     spec fn spec_pk(&self, pk: P) -> Result<Self::TargetPk, Self::Error>;
     fn pk(&mut self, pk: &P) -> (r: Result<Self::TargetPk, Self::Error>)
-        ensures r == old(self).spec_pk(*pk), *final(self) == *old(self);
+        requires old(self).inv(),
+        ensures r == old(self).spec_pk(*pk), final(self).inv(), forall|k: P| #[trigger] final(self).spec_pk(k) == old(self).spec_pk(k);
 }
 
 // ---- Descriptor<Pk>, abstractly: the key-free skeleton and the keys in the order of the string form ------------------------
@@ -152,6 +157,10 @@ impl<Pk: MiniscriptKey> Clone for Descriptor<Pk> {
     fn clone(&self) -> (r: Self) ensures r == *self { unimplemented!() }
 }
 impl Clone for DescriptorPublicKey {
+    #[verifier::external_body]
+    fn clone(&self) -> (r: Self) ensures r == *self { unimplemented!() }
+}
+impl Clone for DefiniteDescriptorKey {
     #[verifier::external_body]
     fn clone(&self) -> (r: Self) ensures r == *self { unimplemented!() }
 }
@@ -195,6 +204,44 @@ impl<Pk: MiniscriptKey> Descriptor<Pk> {
 }
 spec fn is_key_of<Pk: MiniscriptKey>(d: Descriptor<Pk>, k: Pk) -> bool { exists|i: int| 0 <= i < d.keys@.len() && #[trigger] d.keys@[i] == k }
 spec fn is_visited<Pk>(v: Seq<&Pk>, k: Pk) -> bool { exists|a: int| 0 <= a < v.len() && *(#[trigger] v[a]) == k }
+"""
+
+CACHE = r"""
+// ---- alloc::collections::BTreeMap: an uninterpreted view Map<K, V> (vstd has no BTreeMap; same model as units/c14_psbt_satisfier.py) ----
+#[verifier::external_body]
+#[verifier::accept_recursive_types(K)]
+#[verifier::accept_recursive_types(V)]
+struct BTreeMap<K, V> { k: PhantomData<K>, v: PhantomData<V> }
+impl<K, V> View for BTreeMap<K, V> {
+    type V = Map<K, V>;
+    uninterp spec fn view(&self) -> Map<K, V>;
+}
+impl<K, V> BTreeMap<K, V> {
+    #[verifier::external_body]
+    fn new() -> (r: BTreeMap<K, V>) ensures r@ == Map::<K, V>::empty() { unimplemented!() }
+    // std BTreeMap::get (Q = K): the value stored under a key equal to *k
+    #[verifier::external_body]
+    fn get<'a>(&'a self, k: &K) -> (r: Option<&'a V>)
+        ensures r == (if self@.contains_key(*k) { Some(&self@[*k]) } else { None::<&V> })
+    { unimplemented!() }
+    #[verifier::external_body]
+    fn contains_key(&self, k: &K) -> (r: bool) ensures r == self@.contains_key(*k) { unimplemented!() }
+    // std: "If the map did have this key present, the value is updated, and the old value is returned"
+    #[verifier::external_body]
+    fn insert(&mut self, k: K, v: V) -> (r: Option<V>)
+        ensures final(self)@ == old(self)@.insert(k, v), r == (if old(self)@.contains_key(k) { Some(old(self)@[k]) } else { None::<V> })
+    { unimplemented!() }
+}
+// std: `*m.entry(k).or_insert_with(f)` -- "Ensures a value is in the entry by inserting the result of the default function if empty,
+// and returns a mutable reference to the value in the entry": a hit returns the stored value and calls nothing; a miss calls f once,
+// stores and returns its result
+#[verifier::external_body]
+fn btree_entry_or_insert_with_copied<K, V: Copy, F: FnOnce() -> V>(m: &mut BTreeMap<K, V>, k: K, f: F) -> (r: V)
+    requires !old(m)@.contains_key(k) ==> call_requires(f, ()),
+    ensures
+        old(m)@.contains_key(k) ==> r == old(m)@[k] && final(m)@ == old(m)@,
+        !old(m)@.contains_key(k) ==> call_ensures(f, (), r) && final(m)@ == old(m)@.insert(k, r),
+{ unimplemented!() }
 """
 
 ORACLE = r"""
@@ -493,7 +540,70 @@ def index_loop(inv):
     return rw
 
 
-def translator(vf, repo, outer, struct, clause, spec_pk, extra_rw=()):
+def derivator_invariant(repo, outer):
+    """Derivator may carry a memo table next to the secp context.  Its invariant is generated from the field types: a table keyed by the KEY ITSELF
+    (DefiniteDescriptorKey / DescriptorPublicKey) holds, under each key, the public key that key stands for.  A table keyed by a key SOURCE
+    ((fingerprint, path): the 32-bit, merely claimed, origin of a key) has no such invariant -- a key source does not determine a public key (BIP32:
+    fingerprints are only an identifier hint, collisions must be handled), so a hit is an arbitrary stored value.  Any other table: not understood."""
+    text = strip_docs(repo.at(DMOD, "%s/struct:Derivator" % outer).text)
+    m = re.search(r"struct\s+Derivator\b[^(]*\(", text)
+    if not m:
+        raise Undecided("struct Derivator is no longer a tuple struct")
+    close = match_close(text, m.end() - 1)
+    fields, depth, cur = [], 0, ""
+    for ch in text[m.end():close]:
+        if ch in "<([":
+            depth += 1
+        elif ch in ">)]":
+            depth -= 1
+        if ch == "," and depth == 0:
+            fields.append(cur.strip())
+            cur = ""
+        else:
+            cur += ch
+    if cur.strip():
+        fields.append(cur.strip())
+    inv = []
+    for i, f in enumerate(fields):
+        f = re.sub(r"\s+", "", re.sub(r"^pub(\([^)]*\))?\s+", "", f))
+        if i == 0 and f.startswith("&"):
+            continue                                    # the secp context
+        m = re.match(r"^(?:alloc::collections::|std::collections::)?BTreeMap<(.*),(?:bitcoin::)?PublicKey>$", f)
+        if not m:
+            raise Undecided("Derivator field %d has type `%s`: translator state the unit does not understand" % (i, f))
+        k = m.group(1)
+        if k == "DefiniteDescriptorKey":
+            inv.append("(forall|k: DefiniteDescriptorKey| #[trigger] self.%d@.contains_key(k) ==> derivable(k.0) && self.%d@[k] == the_public_key(k.0))" % (i, i))
+        elif k == "DescriptorPublicKey":
+            inv.append("(forall|k: DescriptorPublicKey| #[trigger] self.%d@.contains_key(k) ==> derivable(k) && self.%d@[k] == the_public_key(k))" % (i, i))
+        elif re.sub(r"^bitcoin::", "", k) in ("bip32::KeySource", "(bip32::Fingerprint,bip32::DerivationPath)", "(Fingerprint,DerivationPath)", "KeySource"):
+            pass                                        # no invariant can make a hit under a claimed key source the right key
+        else:
+            raise Undecided("Derivator memo table keyed by `%s`: the unit does not know which public key such a key stands for" % k)
+    return " && ".join(inv) or "true"
+
+
+@rule("R14-entry-or_insert_with")
+def entry_or_insert_with(text):
+    """R14 (optional): `*RECV.entry(KEY).or_insert_with(F)` -> `btree_entry_or_insert_with_copied(&mut RECV, KEY, F)` (std definition of the entry idiom;
+    the leading `*` copies the value out).  `|| pk.derive_public_key(X)` gets a ghost `ensures` (R10)."""
+    m = re.search(r"\*\s*(self\s*\.\s*\d+)\s*\.entry\(", text)
+    if not m:
+        return text
+    k0 = m.end() - 1
+    k1 = match_close(text, k0)
+    m2 = re.match(r"\s*\.or_insert_with\(", text[k1 + 1:])
+    if not m2:
+        return text
+    f0 = k1 + 1 + m2.end() - 1
+    f1 = match_close(text, f0)
+    recv = re.sub(r"\s+", "", m.group(1))
+    clo = text[f0 + 1:f1].strip()
+    clo = re.sub(r"^\|\|\s*(pk\.derive_public_key\([^()]*\))$", r"|| -> (v: PublicKey) ensures v == the_public_key(pk.0) { \1 }", clo)
+    return text[:m.start()] + "btree_entry_or_insert_with_copied(&mut %s, %s, %s)" % (recv, text[k0 + 1:k1], clo) + text[f1 + 1:]
+
+
+def translator(vf, repo, outer, struct, clause, spec_pk, extra_rw=(), inv="true"):
     """Hoist `struct X` + `impl Translator<..> for X` out of the function at anchor `outer`; `fn pk` verbatim with `clause`."""
     vf.item(DMOD, "%s/struct:%s" % (outer, struct))
     fn_body = repo.at(DMOD, outer)
@@ -508,6 +618,7 @@ def translator(vf, repo, outer, struct, clause, spec_pk, extra_rw=()):
     with vf.block(header):
         vf.item(DMOD, ia + "/type:TargetPk")
         vf.item(DMOD, ia + "/type:Error")
+        vf.raw("    spec fn inv(&self) -> bool { %s }" % inv)
         vf.raw("    spec fn spec_pk(&self, pk: %s) -> Result<Self::TargetPk, Self::Error> { %s }" % spec_pk)
         vf.fn(DMOD, ia + "/fn:pk", qual=struct, props=PROPS, contract=Contract(ensures=[clause]), rewrites=list(extra_rw))
 
@@ -587,10 +698,13 @@ impl DefiniteDescriptorKey {
     vf.raw(MODEL)
     vf.trust("trait MiniscriptKey (kind_uncompressed / kind_x_only / kind_num_der_paths) and its three impls",
              "the definitions are the clauses units/c16_keys.py proves for is_uncompressed / is_x_only_key / num_der_paths of DescriptorPublicKey, DefiniteDescriptorKey, bitcoin::PublicKey")
-    vf.trust("trait Translator (spec_pk(&self, pk), frame *final(self) == *old(self))",
-             "the translator's key map is a function of its state and the key; the four translators of this file are verified against it")
-    vf.trust("struct Descriptor { skeleton, keys: Ghost<Seq<Pk>> }, Skeleton, desc_ctx_valid, spk_bytes (uninterpreted), Clone for Descriptor / DescriptorPublicKey (external_body, r == *self), Descriptor::visited_keys",
+    vf.trust("trait Translator (inv(&self), spec_pk(&self, pk); a call keeps the invariant and the key map)",
+             "the translator's key map is a function of its state and the key; a call may change the state (memo table) but not the map; the four translators of this file are verified against it")
+    vf.trust("struct Descriptor { skeleton, keys: Ghost<Seq<Pk>> }, Skeleton, desc_ctx_valid, spk_bytes (uninterpreted), Clone for Descriptor / DescriptorPublicKey / DefiniteDescriptorKey (external_body, r == *self), Descriptor::visited_keys",
              "a descriptor as these functions observe it: key-free structure + keys in string order; derived Clone returns an equal value; for_each_key presents every key and nothing else (c20_iters)")
+    vf.raw(CACHE)
+    vf.trust("struct BTreeMap (external_body, uninterpreted Map<K, V> view) with new / get / contains_key / insert, btree_entry_or_insert_with_copied",
+             "alloc::collections::BTreeMap as in units/c14_psbt_satisfier.py: std semantics of the four methods and of the idiom `*m.entry(k).or_insert_with(f)`; keys compared by structural equality")
     vf.raw(ORACLE)
     vf.raw(axiom_from(repo, "DescriptorPublicKey::at_derivation_index", "axiom_key_at_index", "k: DescriptorPublicKey, index: u32", "key_at_index(k, index)", "k"))
     vf.raw(axiom_from(repo, "DefiniteDescriptorKey::new", "axiom_definite_new", "key: DescriptorPublicKey", "spec_definite_new(key)"))
@@ -613,7 +727,10 @@ impl DefiniteDescriptorKey {
         DD = "impl:DefiniteDescriptorKey/fn:"
         callee(vf, repo, KEY, DD + "new", "DefiniteDescriptorKey::new", extra=[Clause("is_a_function", (), "r == spec_definite_new(key)")])
         callee(vf, repo, KEY, DD + "derive_public_key", "DefiniteDescriptorKey::derive_public_key")
-    vf.trust("assumed callees DerivPaths::paths, DescriptorPublicKey::{has_wildcard, is_multipath, at_derivation_index, into_single_keys}, DefiniteDescriptorKey::{new, derive_public_key}",
+        for f in ("master_fingerprint", "full_derivation_path", "as_descriptor_public_key", "into_descriptor_public_key"):
+            callee(vf, repo, KEY, DD + f, "DefiniteDescriptorKey::" + f)
+    vf.trust("assumed callees DerivPaths::paths, DescriptorPublicKey::{has_wildcard, is_multipath, at_derivation_index, into_single_keys}, DefiniteDescriptorKey::{new, derive_public_key, "
+             "master_fingerprint, full_derivation_path, as_descriptor_public_key, into_descriptor_public_key}",
              "signature from /repo, contract = the clause objects units/c16_keys.py proves on the same tree (harvested from c16_keys.build(repo))")
 
     # ---- TranslateErr (real enum) and its two unwrapping helpers -----------------------------------------------------------------
@@ -628,8 +745,8 @@ impl DefiniteDescriptorKey {
 
     # ---- whole-descriptor callees ---------------------------------------------------------------------------------------------------
     with vf.block("impl<Pk: MiniscriptKey> Descriptor<Pk>"):
-        vf.fn(DMOD, impl_with_fn(repo, DMOD, "Descriptor<Pk>", "translate_pk") + "/fn:translate_pk", assumed=True, contract=Contract(ensures=[
-            Clause("translator_unchanged", (), "*final(t) == *old(t)"),
+        vf.fn(DMOD, impl_with_fn(repo, DMOD, "Descriptor<Pk>", "translate_pk") + "/fn:translate_pk", assumed=True, contract=Contract(requires=["old(t).inv()"], ensures=[
+            Clause("translator_invariant_and_key_map_kept", (), "final(t).inv() && forall|k: Pk| #[trigger] final(t).spec_pk(k) == old(t).spec_pk(k)"),
             Clause("structure_kept_keys_mapped_in_order", (), "r is Ok ==> translated_by(*self, *old(t), r->Ok_0)"),
             Clause("result_is_context_valid", (), "r is Ok ==> desc_ctx_valid(r->Ok_0)"),
             Clause("translator_error_is_some_keys_error", (), "r is Err ==> (r->Err_0 matches TranslateErr::TranslatorErr(e) ==> "
@@ -673,8 +790,8 @@ impl DefiniteDescriptorKey {
     translator(vf, repo, I4 + "/fn:derived_descriptor", "Derivator",
                C("key_replaced_by_its_bip32_derived_public_key", "r == Ok::<PublicKey, core::convert::Infallible>(the_public_key(pk.0))"),
                ("DefiniteDescriptorKey", "Ok(the_public_key(pk.0))"),
-               extra_rw=[sub("R10", r"\{\s*Ok\(", "{\n                proof { use_type_invariant(pk); }\n                Ok(", count=1)])
-
+               extra_rw=[sub("R10", r"^([^{]*\{)", r"\1\n                proof { use_type_invariant(pk); }", count=1), entry_or_insert_with],
+               inv=derivator_invariant(repo, I4 + "/fn:derived_descriptor"))
     vf.raw(LEMMAS)
 
     # ---- DerivationResult ---------------------------------------------------------------------------------------------------------------
